@@ -157,10 +157,8 @@ Definition list_rps (v : Z) (f : rp_filters) (d : db) : list Z :=
   match list_rps_result v f d with Some l => l | None => [] end.
 
 (* ================================================================ GET /allocation_candidates: results *)
-(* allocation_candidate.AllocationRequestResource. rr_grp / rr_obj identify the shared Python object:
-   the request group that created it and, for _alloc_candidates_multiple_providers, the anchor root it was
-   created under (-1 in _alloc_candidates_single_provider, whose anchor copies share their resource_requests). *)
-Record rreq := mkRreq { rr_rp : Z; rr_rc : Z; rr_amt : Z; rr_grp : Z; rr_obj : Z }.
+(* allocation_candidate.AllocationRequestResource *)
+Record rreq := mkRreq { rr_rp : Z; rr_rc : Z; rr_amt : Z }.
 (* allocation_candidate.AllocationRequest: anchor root, resource requests, mappings suffix -> providers *)
 Record creq := mkCreq { cr_anchor : Z; cr_rrs : list rreq; cr_maps : list (Z * list Z) }.
 (* allocation_candidate.ProviderSummary: provider, [(class, capacity, used)], traits, parent, root *)
@@ -170,8 +168,7 @@ Inductive cand_result :=
 | CErr (st : Z)                      (* 400 (bad query / unknown trait or class), 404 (microversion < 1.10) *)
 | CKeyError                          (* 500: KeyError summaries_by_id[rp.id] in _alloc_candidates_multiple_providers *)
 | COrderDependent (why : Z)          (* 200 whose content depends on Python set iteration order:
-                                        1 = AllocationRequest set de-duplication drops all but one anchor,
-                                        2 = a shared AllocationRequestResource is mutated by `amount +=` *)
+                                        1 = AllocationRequest set de-duplication drops all but one anchor *)
 | COk (areqs : list creq) (sums : list psum).
 
 (* pipeline monad: REmpty = ResourceProviderNotFound or "no candidates" ([], []), RBad = 400 *)
@@ -406,7 +403,7 @@ Definition alloc_requests_for_tree (d : db) (g : rgroup) (cands : list rpc) (roo
   let here := filter (fun c => pc_root c =? root) cands in
   let rcs := filter (fun rc => existsb (fun c => pc_rc c =? rc) here) (map fst (g_resources g)) in
   let request_groups :=
-    map (fun rc => map (fun c => mkRreq (pc_rp c) rc (amount_of g rc) (g_suffix g) root)
+    map (fun rc => map (fun c => mkRreq (pc_rp c) rc (amount_of g rc))
                        (filter (fun c => pc_rc c =? rc) here)) rcs in
   flat_map (fun combo =>
               if check_traits_for_alloc_request d (map rr_rp combo) (g_required g) (g_forbidden g)
@@ -425,7 +422,7 @@ Definition alloc_candidates_multiple_providers (d : db) (ctx : rg_ctx) (built : 
 
 (* _allocation_request_for_provider *)
 Definition allocation_request_for_provider (d : db) (g : rgroup) (u : Z) : creq :=
-  mkCreq (root_of d u) (map (fun x => mkRreq u (fst x) (snd x) (g_suffix g) (-1)) (g_resources g)) [(g_suffix g, [u])].
+  mkCreq (root_of d u) (map (fun x => mkRreq u (fst x) (snd x)) (g_resources g)) [(g_suffix g, [u])].
 
 (* _alloc_candidates_single_provider *)
 Definition alloc_candidates_single_provider (d : db) (rw : rw_ctx) (ctx : rg_ctx) (built : list Z)
@@ -503,12 +500,14 @@ Definition satisfies_same_subtree (d : db) (ssts : list (list Z)) (combo : list 
                (dedup (flat_map (fun c => flat_map (fun kv => if memZ (fst kv) suffixes then snd kv else [])
                                                    (cr_maps c)) combo))) ssts.
 
-(* _consolidate_allocation_requests: amounts of the same (provider, class) are summed into the first entry *)
+(* _consolidate_allocation_requests: amounts of the same (provider, class) are summed into the first entry.
+   copy_arr_if_needed copies every AllocationRequestResource whose class is requested by several groups
+   (a collision implies that), so the `amount +=` never touches an object shared with another combination *)
 Fixpoint add_rr (acc : list rreq) (x : rreq) : list rreq :=
   match acc with
   | [] => [x]
   | y :: r => if (rr_rp y =? rr_rp x) && (rr_rc y =? rr_rc x)
-              then mkRreq (rr_rp y) (rr_rc y) (rr_amt y + rr_amt x) (rr_grp y) (rr_obj y) :: r
+              then mkRreq (rr_rp y) (rr_rc y) (rr_amt y + rr_amt x) :: r
               else y :: add_rr r x
   end.
 Fixpoint add_map (acc : list (Z * list Z)) (kv : Z * list Z) : list (Z * list Z) :=
@@ -539,26 +538,6 @@ Definition merge_combos (d : db) (rw : rw_ctx) (cands : list (rgroup * list creq
         (filter (fun combo => satisfies_group_policy (rw_policy rw) num_granular combo
                               && satisfies_same_subtree d (rw_same_subtrees rw) (map snd combo))
                 (product lists))) anchors.
-
-(* Hazard 2. copy_arr_if_needed copies only for group_policy=none: otherwise `arrs_by_rp_rc[key].amount +=`
-   updates the first group's AllocationRequestResource object itself, which corrupts every other
-   combination (and every already produced result) that uses the same object *)
-Definition same_obj (a b : rreq) : bool :=
-  (rr_grp a =? rr_grp b) && (rr_rp a =? rr_rp b) && (rr_rc a =? rr_rc b) && (rr_obj a =? rr_obj b).
-Fixpoint mutated_objs (seen : list rreq) (l : list rreq) : list rreq :=
-  match l with
-  | [] => []
-  | x :: r => match find (fun y => (rr_rp y =? rr_rp x) && (rr_rc y =? rr_rc x)) seen with
-              | Some y => y :: mutated_objs seen r
-              | None => mutated_objs (seen ++ [x]) r
-              end
-  end.
-Definition arr_mutation_hazard (policy : gpolicy) (combos : list (list creq)) : bool :=
-  match policy with
-  | GPNone => false
-  | _ => let flat := map (flat_map cr_rrs) combos in
-         existsb (fun c => existsb (fun x => 2 <=? lenZ (filter (existsb (same_obj x)) flat)) (mutated_objs [] c)) flat
-  end.
 
 (* ProviderSummary of one provider: every inventory with capacity int((total - reserved) * ratio) and usage *)
 Definition summary_of (d : db) (r : rp) : psum :=
@@ -688,7 +667,6 @@ Definition drop_ambiguous (l : list creq) : list creq :=
 Definition finish_requests (d : db) (v : Z) (q : query) (rw : rw_ctx) (built : list Z)
            (cands : list (rgroup * list creq)) : cand_result :=
   let combos := merge_combos d rw cands in
-  if arr_mutation_hazard (rw_policy rw) combos then COrderDependent 2 else
   transform v q (exclude_nested_providers d rw (merge_candidates d built combos)).
 
 (* AllocationCandidates._get_by_requests (without limit_results).
@@ -732,8 +710,7 @@ Definition candidates_all_anchors := candidates_gen true.
 Definition subset_by {A} (eqb : A -> A -> bool) (a b : list A) : bool := forallb (fun x => existsb (eqb x) b) a.
 (* 0 = agree, 1 = disagree;
    the model says "order dependent" and the service answered 200:
-   2 = kind 1, observed = the all-anchors result; 4 = kind 1, observed is a strict subset of it (candidates lost);
-   3 = kind 2 (amounts unspecified) *)
+   2 = observed = the all-anchors result; 4 = observed is a strict subset of it (candidates lost) *)
 Definition cand_check (model upper observed : cand_result) : Z :=
   match model, observed with
   | CErr a, CErr b => if a =? b then 0 else 1
@@ -742,10 +719,8 @@ Definition cand_check (model upper observed : cand_result) : Z :=
       match upper with
       | COk a s => if set_eq_by same_creq a a' && set_eq_by psum_eqb s s' then 2
                    else if subset_by same_creq a' a && subset_by psum_eqb s' s then 4 else 1
-      | COrderDependent _ => 3
       | _ => 1
       end
-  | COrderDependent _, COk _ _ => 3
   | COk a s, COk a' s' => if set_eq_by same_creq a a' && set_eq_by psum_eqb s s' then 0 else 1
   | _, _ => 1
   end.
